@@ -861,7 +861,14 @@ where
             let count = try_or_cleanup!(io::copy(&mut output_data.into_reader(), &mut file)
                 .with_context(|| format!("Failed to write output to {}", local_path.display())));
 
-            assert!(count == len);
+            if count != len {
+                try_or_cleanup!(Err::<(), _>(anyhow!(
+                    "Output {} has {} bytes, expected {}",
+                    local_path.display(),
+                    count,
+                    len
+                )));
+            }
         }
         let extra_inputs = match tc_archive {
             Some(p) => vec![p],
